@@ -67,8 +67,8 @@ theorem b_compose (o a b : Int) (h : wd o < 5) (hs : (0 ≤ a ∧ 0 ≤ b) ∨ (
 
 example : wd 730124 < 5 ∧ ((0:Int) ≤ 7 ∧ (0:Int) ≤ 4) := by decide
 
-/-- opposite signs do NOT compose in general, which is why the property restricts to the same sign:
-Friday +1b -1b is fine but Saturday … and e.g. Mon `+1b` then `-3b` ≠ `-2b`?  (they agree; the failing shape is from a weekend) -/
+/-- `+n` business days then `-n` business days returns to the start, from a weekday (from a weekend day it cannot:
+the roll to Monday is not undone) -/
 theorem b_inverse (o n : Int) (h : wd o < 5) :
     (o + bOff (wd o) n) + bOff (wd (o + bOff (wd o) n)) (-n) = o := by
   unfold bOff wd at *; simp only []; repeat' split
